@@ -295,6 +295,11 @@ class Builtins:
             k = k.inner
         return self.ex.ok(SBool(validcid(k.t)), st)
 
+    def b_spec_is_the_election(self, args, kw, st, fr):
+        from .models import THE_E
+        self.ex.election_facts(st)
+        return self.ex.ok(SBool(args[0].t == THE_E), st)
+
     def b_spec_is_ballot(self, args, kw, st, fr):
         from .models import isBallot
         self.ex.election_facts(st)
